@@ -10,7 +10,8 @@ COMP = {"A": "T", "C": "G", "G": "C", "T": "A"}
 
 
 def gen_gene(r, name="GEN", pseudogene=None, n_exons=None, n_alleles=None, fusions=None, deletion=None, custom=None,
-             cigar_indels=False, same_strand=False, allow_mnp=True, offsets=(100000000, 200000000), scale=1, ascending38=False):
+             cigar_indels=False, same_strand=False, allow_mnp=True, offsets=(100000000, 200000000), scale=1, ascending38=False,
+             balanced_gaps=False):
     pseudogene = r.random() < 0.6 if pseudogene is None else pseudogene
     n_exons = n_exons or r.randint(2, 4)
     lens = {"up": r.randint(5, 12)}
@@ -87,9 +88,31 @@ def gen_gene(r, name="GEN", pseudogene=None, n_exons=None, n_alleles=None, fusio
                             mappings[build][2] -= ii
                             mappings[build][4] = f"M{before} I{ii} M{L - before - ii}"
 
+    blocked = set()
+    if balanced_gaps and not cigar_indels:
+        # one build whose alignment has an insertion and, further on inside the same region, a deletion of the same length
+        # (`M260 I3 M187 D3 M150`): genome span and RefSeq length are equal although the alignment is gapped, and every base
+        # between the two gaps sits at a shifted offset. No catalogue variant is placed on or next to the gaps.
+        build, regs, S = r.choice([("hg19", regions19, S19), ("hg38", regions38, S38)])
+        cands = [(n_, co) for n_, co in regs.items() if co[1] - co[0] >= 20]
+        if cands:
+            # (mostly the longest region with the gaps near its two ends: the catalogue variants of the region lie between them)
+            n_, co = max(cands, key=lambda t: t[1][1] - t[1][0]) if r.random() < 0.7 else r.choice(cands)
+            a_, b_ = co[0], co[1]
+            kk = r.randint(1, 3)
+            x = r.randint(a_ + 2, a_ + 5)
+            mid = b_ - x - kk - 4 if r.random() < 0.7 else r.randint(6, b_ - x - kk - 4)
+            before = x - (S + 1)
+            rest = L - before - kk - mid
+            if rest > 3:
+                mappings[build][4] = f"M{before} I{kk} M{mid} D{kk} M{rest}"
+                for p_ in list(range(before - 3, before + kk + 5)) + list(range(before + kk + mid - 4, before + kk + mid + 5)):
+                    blocked.add(p_)
+                    blocked.add(L + 1 - p_)
+
     # ---- variants -------------------------------------------------------------------------
     gene_lo, gene_hi = off_gene + 1, off_gene + G  # 1-based inclusive refseq range of the gene
-    used_sites = set()
+    used_sites = set(blocked)
 
     def pick_site(width=1):
         for _ in range(50):
@@ -214,6 +237,55 @@ def gen_gene(r, name="GEN", pseudogene=None, n_exons=None, n_alleles=None, fusio
         "reference": {"name": "NG_GEN", "mappings": mappings, "exons": exons, "seq": seq},
     }
     return yaml.safe_dump(doc, sort_keys=False, default_flow_style=None)
+
+
+def with_balanced_gaps(r, y):
+    """the same database, one build re-aligned with an insertion and, further on inside the same region, a deletion of the
+    same length (`M260 I3 M187 D3 M150`): genome span and RefSeq length stay equal although the alignment is gapped, and
+    every RefSeq base between the two gaps sits at a shifted genome offset. The gaps bracket catalogue variants of the
+    region where it has some; no variant lies on or next to a gap. Returns the input when no region fits."""
+    doc = yaml.safe_load(y)
+    L = len(doc["reference"]["seq"])
+    var = set()
+    for a in doc["alleles"].values():
+        muts = a if isinstance(a, list) else a["mutations"]
+        for e in muts:
+            if isinstance(e[0], int):
+                w = len(str(e[1]).split(">")[0]) if ">" in str(e[1]) else (len(str(e[1])[3:].split("ins")[0]) if str(e[1]).startswith("del") else 1)
+                var |= set(range(e[0], e[0] + max(1, w)))
+    builds = [b for b in ("hg19", "hg38") if doc["reference"]["mappings"][b][4] == f"M{L}"]
+    r.shuffle(builds)
+    best = None
+    for build in builds:
+        mp = doc["reference"]["mappings"][build]
+        S = mp[1] - 1
+        plus = mp[3] == "+"
+        regs = [(n_, co[0], co[1]) for n_, co in doc["structure"]["regions"][build].items() if co[1] - co[0] >= 18]
+        r.shuffle(regs)
+        for n_, a_, b_ in regs:
+            for _ in range(12):
+                kk = r.randint(1, 3)
+                x = r.randint(a_ + 2, a_ + 6)
+                if b_ - x - kk - 3 < 6:
+                    continue
+                mid = r.randint(6, b_ - x - kk - 3)
+                before = x - (S + 1)
+                rest = L - before - kk - mid
+                if rest < 3:
+                    continue
+                # RefSeq 1-based positions: gap zones and the stretch between the gaps, in this build's orientation
+                conv = (lambda o: o + 1) if plus else (lambda o: L - o)
+                zone = {conv(o) for o in list(range(before - 4, before + kk + 4)) + list(range(before + kk + mid - 4, before + kk + mid + 4))}
+                between = {conv(o) for o in range(before + kk, before + kk + mid)}
+                if zone & var:
+                    continue
+                score = len(between & var)
+                if best is None or score > best[0]:
+                    best = (score, f"M{before} I{kk} M{mid} D{kk} M{rest}", build)
+    if best is not None:
+        doc["reference"]["mappings"][best[2]][4] = best[1]
+        return yaml.safe_dump(doc, sort_keys=False, default_flow_style=None)
+    return y
 
 
 def with_delins(r, y):
